@@ -555,7 +555,15 @@ class NumpyShim:
         self.__dict__["_real"] = real
 
     def __getattr__(self, n):
-        return getattr(self._real, n)
+        r = getattr(self._real, n)
+        if n in npmodel.INT_TYPE_NAMES:
+            return npmodel.scalar_type_proxy(r)      # np.int16(x) keeps a symbolic x symbolic (numpy integer scalar model)
+        return r
+
+    def ndarray(self, shape, dtype=float, *a, **kw):
+        if core.CUR is None or a or kw:
+            return self._real.ndarray(shape, dtype, *a, **kw)
+        return npmodel.new_array(shape, dtype)
 
     def frombuffer(self, buffer, dtype=float, count=-1, offset=0):
         if not isinstance(buffer, (SymBuf, SymSeq)):
@@ -621,6 +629,8 @@ class SymStruct:
         self._bounds(buf, offset, "pack_into")
         p = pos(offset)
         for code, a in zip(self.codes, args):
+            if isinstance(a, npmodel.NpInt) and code in _INT_FMT:
+                a = a.v                      # struct packs numpy integer scalars through __index__
             if code == "?":
                 bits, nb = z3.If(tb(a), z3.BitVecVal(1, 8), z3.BitVecVal(0, 8)), 1
             elif code in "fd":
@@ -703,6 +713,8 @@ class IntShim(metaclass=_IntMeta):
             return x
         if isinstance(x, SymBool):
             return SymInt(bv(x))
+        if isinstance(x, npmodel.NpInt):
+            return x.v                       # int(numpy integer scalar): the plain (unbounded) integer
         return builtins.int(x, *a)
 
 
@@ -717,6 +729,8 @@ class BoolShim(metaclass=_BoolMeta):
             return x
         if isinstance(x, SymInt):
             return SymBool(tb(x))
+        if isinstance(x, npmodel.NpInt) and not isinstance(x.v, int):
+            return SymBool(tb(x.v))
         return builtins.bool(x)
 
 
@@ -726,6 +740,11 @@ _CLS_MAP = {}
 def isinstance_shim(o, cls):
     if isinstance(cls, tuple):
         return any(isinstance_shim(o, c) for c in cls)
+    cls = getattr(cls, "pysym_real", cls)        # np.int16 etc. inside the yardl modules are constructor proxies
+    if isinstance(o, npmodel.NpInt):             # a numpy integer scalar: instance of its scalar type's classes only
+        return isinstance(cls, type) and issubclass(o.dtype.type, cls)
+    if isinstance(o, npmodel.SymArray):
+        return isinstance(cls, type) and issubclass(_np_ndarray(), cls)
     if cls is IntShim or cls is builtins.int:
         return isinstance(o, (int, SymInt, SymBool))
     if cls is BoolShim or cls is builtins.bool:
@@ -753,6 +772,11 @@ def len_shim(o):
     if hasattr(o, "sym_len"):
         return o.sym_len()
     return builtins.len(o)
+
+
+def _np_ndarray():
+    import numpy
+    return numpy.ndarray
 
 
 def memoryview_shim(o):
@@ -806,6 +830,10 @@ def type_shim(*a):
             return builtins.bool
         if isinstance(o, SymFloat):
             return builtins.float
+        if isinstance(o, npmodel.NpInt):
+            return o.dtype.type
+        if isinstance(o, npmodel.SymArray):
+            return _np_ndarray()
     return builtins.type(*a)
 
 
@@ -846,3 +874,6 @@ def install(mod, names=None):
             s = getattr(obj, "__dict__", {}).get("_struct")
             if isinstance(s, _struct.Struct):
                 obj._struct = SymStruct(s.format)
+
+
+from . import npmodel   # numpy integer scalars / logical arrays (imports this module: keep at the end)
